@@ -377,9 +377,9 @@ func handBuilt(m Mut) []byte {
 			} else {
 				e = packlab.RawEntry{Type: 7, Size: uint64(len(d)), BaseRef: id("blob", cur), Payload: d}
 			}
-			e.Level = 1
+			e.Raw = packlab.Deflate(d, 1)
 			es = append(es, e)
-			prevLen = len(packlab.EncodeEntryHeader(e.Type, e.Size)) + len(packlab.Deflate(d, 1))
+			prevLen = len(packlab.EncodeEntryHeader(e.Type, e.Size)) + len(e.Raw)
 			if e.Type == 6 {
 				prevLen += len(packlab.EncodeOfs(e.OfsBack))
 			} else {
